@@ -140,6 +140,9 @@ pub struct RunLog {
     pub gate_timeouts: u64,
     pub finalized_chains: Vec<u64>,
     pub density_evals: HashMap<i64, u64>,
+    /// per chain: indices of evaluations at a position that the chain had evaluated before (only with
+    /// `keep_eval_records`): the re-run of the step size search starts with one
+    pub revisit_evals: HashMap<i64, Vec<u64>>,
 }
 
 #[derive(Clone, Debug)]
@@ -161,6 +164,8 @@ pub struct RunSpec {
     pub script: Vec<Cmd>,
     /// budget for the final wait after the script (milliseconds)
     pub final_wait_ms: u64,
+    /// keep every density evaluation of every chain (positions) so that re-evaluated points can be located
+    pub keep_eval_records: bool,
 }
 
 impl RunSpec {
@@ -182,6 +187,7 @@ impl RunSpec {
             log_events: false,
             script: vec![],
             final_wait_ms: 60_000,
+            keep_eval_records: false,
         }
     }
 }
@@ -230,6 +236,9 @@ pub fn run(spec: &RunSpec) -> RunLog {
     model.delays = spec.delays.clone();
     model.plans = spec.plans.clone();
     model.faults = spec.model_faults.clone();
+    model.keep_records = spec.keep_eval_records;
+    model.math_uses_rng = spec.model_faults.math_uses_rng;
+
     let (cfg, shared) = RecConfig::with_faults(spec.storage_faults.clone());
     let model_logs = model.logs.clone();
     let mut calls = vec![];
@@ -429,6 +438,27 @@ fn res(r: anyhow::Result<()>) -> CallOutcome {
 }
 
 fn finish(calls: Vec<CallLog>, fin: Final, shared: &Arc<RecShared>, logs: Arc<std::sync::Mutex<HashMap<i64, crate::dens::SharedLog>>>) -> RunLog {
+    // one lock of the log table at a time (a guard inside a struct literal lives until the end of the literal)
+    let density_evals: HashMap<i64, u64> = {
+        let g = logs.lock().unwrap();
+        g.iter().map(|(c, l)| (*c, l.lock().unwrap().count)).collect()
+    };
+    let revisit_evals: HashMap<i64, Vec<u64>> = {
+        let g = logs.lock().unwrap();
+        g.iter()
+            .map(|(c, l)| {
+                let l = l.lock().unwrap();
+                let mut seen = std::collections::HashSet::new();
+                let mut v = vec![];
+                for r in &l.records {
+                    if !seen.insert(crate::util::hash_f64s(&r.position)) {
+                        v.push(r.k);
+                    }
+                }
+                (*c, v)
+            })
+            .collect()
+    };
     RunLog {
         calls,
         fin,
@@ -436,7 +466,8 @@ fn finish(calls: Vec<CallLog>, fin: Final, shared: &Arc<RecShared>, logs: Arc<st
         events: sched::take_events(),
         gate_timeouts: sched::gate_timeouts(),
         finalized_chains: shared.finalized_chains.lock().unwrap().clone(),
-        density_evals: logs.lock().unwrap().iter().map(|(c, l)| (*c, l.lock().unwrap().count)).collect(),
+        density_evals,
+        revisit_evals,
     }
 }
 
